@@ -32,14 +32,17 @@
 //  2. add a file xyz.go here with
 //
 //     func init() { register("C22 fatal sites", extractFatal) }
-//     func extractFatal(p *Program, w *Section) { … w.Def("fatalSites", "List FatalSite", items) … }
+//     func extractFatal(p *Program, w *Section) { … w.Declare("fatalSites", "FatalSite"); … w.Def("fatalSites", "FatalSite", items) … }
 //
 //     An extractor reads the loaded program (p.Pkgs: parsed files, go/types info when available)
 //     and appends definitions to ITS OWN section; sections are written in the order of their
 //     titles. It must not panic on unexpected code (main recovers and replaces the section by
 //     empty definitions listed in `loadProblems`, so declare the names first with w.Declare);
 //
-//  3. never remove or rename a definition that a Lean file imports.
+//  3. if it reads files other than .go/.tmpl/go.mod, add their extension to digestExts (main.go);
+//
+//  4. never remove or rename a definition that a Lean file imports. `-v` prints a listing with
+//     line numbers to stderr (used to find the hashes for the expectation tables).
 //
 // Packages scanned: the generation pipeline (everything cmd/textmapper's `generate` can reach):
 // see pipelineRoots in load.go. *_test.go files and files carrying the `verif` build tag (the
